@@ -1,6 +1,6 @@
 -- Root of the `GeoVerif` library: models (import-free), lemma files (single-module Mathlib imports),
 -- property theorems.  `Generated/*` is written by tools/extract.py and imported by the property files that use it.
-import GeoVerif.Lemmas.C04
+import GeoVerif.Ops.All
 import GeoVerif.Lemmas.C05
 import GeoVerif.Lemmas.C07
 import GeoVerif.Lemmas.C08
@@ -10,5 +10,7 @@ import GeoVerif.Lemmas.C12
 import GeoVerif.Lemmas.C13
 import GeoVerif.Lemmas.C14
 import GeoVerif.Lemmas.C15
-import GeoVerif.Lemmas.C16
-import GeoVerif.Lemmas.Series
+import GeoVerif.Properties.C01
+import GeoVerif.Properties.C03
+import GeoVerif.Properties.C04
+import GeoVerif.Properties.C16
